@@ -44,11 +44,12 @@ def _colon(ctx):
     ctx.floor('need_colon uses', len(uses), 1)
     for u in uses:
         st = enclosing_stmt(u)
-        ok = isinstance(st, ast.If) and norm(st.test) == "need_colon and sec_mo['colon'] is None"
-        ctx.check(ok, 'TBL', "need_colon only matters for a section match without a colon",
-                  "`if need_colon and sec_mo['colon'] is None`",
-                  f"need_colon is consulted in `{norm(st)[:70]}`: colon modes can change the result even when "
-                  f"every section has its colon", key="TBL|SecFinder|need_colon-use", where=common.loc(fi, u))
+        ok = isinstance(st, ast.If) and 'need_colon' in norm(st.test) and "['colon']" in norm(st.test)
+        bad = isinstance(st, ast.If) and 'need_colon' in norm(st.test) and 'colon' not in norm(st.test).replace('need_colon', '')
+        ctx.tri(ok, bad, 'TBL', "need_colon only matters for a section match without a colon",
+                "`need_colon` is tested together with the match's colon group",
+                f"need_colon is consulted in `{norm(st)[:70]}` without the colon group: colon modes can change the "
+                f"result even when every section has its colon", key="TBL|SecFinder|need_colon-use", where=common.loc(fi, u))
     ms = ctx.fold.get('rgxlib.sec', 'multisec_regex')
     ctx.attempt(_inc, 'RX-LANG', 'multisec_regex', F.MULTISEC, ms, 'section lists with optional (spaced) colon')
     L = common.lang(ctx, ms)
@@ -79,70 +80,86 @@ def _colon(ctx):
             b3 = [norm(s) for s in el.orelse]
             ok = b1 == ['need_colon = require_colon'] and 'need_colon = False' in b2 \
                 and 'self.flags = []' in b2 and 'self.flag_lines = []' in b2 and b3 == ['need_colon = True']
-    ctx.check(ok, 'TBL', 'require_colon lattice: bool -> itself; SECOND_PASS -> no colon needed, staged flags cleared; CAUTIOUS -> colon needed',
-              detail_bad="the require_colon decoding chain changed", key="TBL|SecFinder|lattice")
+    ctx.shape(ok, 'TBL', 'require_colon lattice: bool -> itself; SECOND_PASS -> no colon needed, staged flags cleared; CAUTIOUS -> colon needed')
     # second pass only for CAUTIOUS (never for True), only when nothing matched, paired warning
     sec = [n for n in fi.node.body if isinstance(n, ast.If) and 'self.SEC_COLON_CAUTIOUS' in norm(n.test)]
     ok = bool(sec) and norm(sec[0].test).startswith('require_colon == self.SEC_COLON_CAUTIOUS and layout in') \
         and any(isinstance(c, ast.Call) and dotted(c.func) == 'self.findall_matching_sec'
                 and any(k.arg == 'require_colon' and norm(k.value) == 'self.SECOND_PASS' for k in c.keywords)
                 for c in ast.walk(sec[0]))
-    ctx.check(ok, 'TBL', 'a second pass runs only for sec_colon_cautious (never for sec_colon_required)',
-              detail_bad="second-pass trigger changed", key="TBL|SecFinder|second-pass")
+    ctx.shape(ok, 'TBL', 'a second pass runs only for sec_colon_cautious (never for sec_colon_required)')
     m = [n for n in fi.node.body if isinstance(n, ast.If) and norm(n.test) == 'self.matches and require_colon != self.SECOND_PASS']
     ok = bool(m) and any(isinstance(s, ast.Return) for s in m[0].body) and len(m[0].orelse) == 1 \
         and isinstance(m[0].orelse[0], ast.If) and norm(m[0].orelse[0].test) == 'self.matches'
     body2 = [norm(s) for s in m[0].orelse[0].body] if ok else []
-    ctx.check(ok and 'self.flags.append(flag)' in body2 and 'self.flag_lines.append((flag, flag))' in body2
-              and any('pulled_sec_without_colon' in x for x in body2), 'PAIR',
-              'sections pulled by the second pass raise a paired pulled_sec_without_colon warning',
-              detail_bad="second-pass warning missing / unpaired", key="PAIR|SecFinder|second-pass-warning")
+    whole = ' '.join(norm(x) for x in walk_local(fi.node) if isinstance(x, ast.stmt))
+    ctx.tri(ok and 'self.flags.append(flag)' in body2 and 'self.flag_lines.append((flag, flag))' in body2
+            and any('pulled_sec_without_colon' in x for x in body2), 'pulled_sec_without_colon' not in whole, 'PAIR',
+            'sections pulled by the second pass raise a paired pulled_sec_without_colon warning',
+            detail_bad="the second pass no longer raises the pulled_sec_without_colon warning",
+            key="PAIR|SecFinder|second-pass-warning")
     # producers of require_colon
     prop = ctx.repo.func('PLSSDesc.require_colon')
     vals = set()
     for n in walk_local(prop.node):
         if isinstance(n, ast.Assign) and norm(n.targets[0]) == 'required':
             vals.add(norm(n.value))
-    ctx.check(vals == {'self.sec_colon_required', 'SecFinder.SEC_COLON_CAUTIOUS'}, 'LOCK',
-              'PLSSDesc.require_colon yields required-bool or the CAUTIOUS marker',
-              detail_bad=f"values {sorted(vals)}", key="LOCK|PLSSDesc.require_colon|values")
+    ctx.shape(vals == {'self.sec_colon_required', 'SecFinder.SEC_COLON_CAUTIOUS'}, 'LOCK',
+              'PLSSDesc.require_colon yields required-bool or the CAUTIOUS marker')
     p = ctx.repo.func('PLSSDesc.parse')
     vals = set()
     for n in walk_local(p.node):
         if isinstance(n, ast.Assign) and norm(n.targets[0]) == 'require_colon':
             vals.add(norm(n.value))
-    ctx.check(vals == {'sec_colon_required', 'SecFinder.SEC_COLON_CAUTIOUS'}, 'LOCK',
-              'PLSSDesc.parse yields required-bool or the CAUTIOUS marker (from the locked-down arguments)',
-              detail_bad=f"values {sorted(vals)}", key="LOCK|PLSSDesc.parse|require_colon-values")
-    prov_ok = False
-    for n in walk_local(p.node):
-        if isinstance(n, ast.Assign) and norm(n) == 'require_colon = sec_colon_required':
-            pv = flow.provenance(p.node, n.value)
-            prov_ok = 'sec_colon_required' in flow.prov_params(pv) and 'self.sec_colon_required' in flow.prov_attrs(pv)
-    ctx.check(prov_ok, 'LOCK', 'sec_colon_required: keyword if given, else attribute',
-              detail_bad="parse(sec_colon_required=...) does not reach the parser", key="LOCK|PLSSDesc.parse|sec_colon_required")
+    # positive evidence: require_colon seeded from the attribute instead of the locked-down argument
+    ctx.tri(vals == {'sec_colon_required', 'SecFinder.SEC_COLON_CAUTIOUS'},
+            any(v.startswith('self.') for v in vals), 'LOCK',
+            'PLSSDesc.parse yields required-bool or the CAUTIOUS marker (from the locked-down arguments)',
+            detail_bad=f"require_colon is assigned {sorted(vals)}: the attribute, not the argument, decides",
+            key="LOCK|PLSSDesc.parse|require_colon-values")
+    from .c13 import _consumer_kwargs
+    call, kwp = _consumer_kwargs(ctx, p, 'PLSSParser')
+    if 'require_colon' in kwp:
+        pv = flow.provenance(p.node, kwp['require_colon'], control='sentinel')
+        ctx.check('sec_colon_required' in flow.prov_params(pv), 'LOCK',
+                  'the parser\'s require_colon derives from the sec_colon_required argument',
+                  detail_bad="parse(sec_colon_required=...) does not reach the parser (the attribute is used instead)",
+                  key="LOCK|PLSSDesc.parse|sec_colon_required")
+    else:
+        ctx.undecided('LOCK', 'require_colon handed to PLSSParser', 'keyword not found')
     fm = ctx.repo.func('ChunkParser.find_matches')
     t = ' '.join(norm(s) for s in walk_local(fm.node) if isinstance(s, ast.stmt))
-    ctx.check('SecFinder(text, layout, self.parent.require_colon)' in t, 'LOCK',
-              "every chunk's SecFinder receives the parser's require_colon", detail_bad="require_colon not forwarded",
-              key="LOCK|find_matches|require_colon")
+    ctx.shape('SecFinder(text, layout, self.parent.require_colon)' in t, 'LOCK',
+              "every chunk's SecFinder receives the parser's require_colon")
     pi = ctx.repo.func('PLSSParser.__init__')
-    ctx.check('self.require_colon = require_colon' in [norm(s) for s in walk_local(pi.node) if isinstance(s, ast.stmt)],
-              'LOCK', 'PLSSParser stores require_colon', detail_bad="require_colon dropped", key="LOCK|PLSSParser|require_colon")
+    ctx.shape('self.require_colon = require_colon' in [norm(s) for s in walk_local(pi.node) if isinstance(s, ast.stmt)],
+              'LOCK', 'PLSSParser stores require_colon')
 
 
 def _sec_within(ctx):
     fi = ctx.repo.func('plss_parse:rebuild_sec_within')
     t = ' '.join(norm(s) for s in walk_local(fi.node) if isinstance(s, ast.stmt))
-    ctx.check('if len(tract_components) != 1' in t, 'TBL', 'sec_within acts only when exactly one tract component is staged',
-              detail_bad="the one-component condition changed", key="TBL|rebuild_sec_within|one")
+    ctx.shape('if len(tract_components) != 1' in t, 'TBL', 'sec_within acts only when exactly one tract component is staged')
     pops = [c for c in walk_local(fi.node) if isinstance(c, ast.Call) and norm(c.func) == 'unused_components.pop']
-    if len(pops) != 1:
-        raise AnalysisError("rebuild_sec_within: unused_components.pop not found")
-    arg = norm(pops[0].args[0]) if pops[0].args else None
-    ctx.check(arg == '0', 'ORDER', 'unused blocks are re-attached in reading order (pop(0))',
-              'FIFO', f"`{norm(pops[0])}` takes the blocks from the end: pieces on the same side of the section are "
-                      f"joined in swapped order", key="ORDER|rebuild_sec_within|fifo", where=common.loc(fi, pops[0]))
+    if len(pops) == 1:
+        arg = norm(pops[0].args[0]) if pops[0].args else None
+        ctx.tri(arg == '0', arg in (None, '-1'), 'ORDER', 'unused blocks are re-attached in reading order (pop(0))',
+                'FIFO', f"`{norm(pops[0])}` takes the blocks from the end: pieces on the same side of the section are "
+                        f"joined in swapped order", key="ORDER|rebuild_sec_within|fifo", where=common.loc(fi, pops[0]))
+    else:
+        ctx.undecided('ORDER', 'unused blocks are re-attached in reading order', 'pop loop not recognised')
+    # the reportable-length test looks at the CLEANED block
+    lens = [n for n in walk_local(fi.node) if isinstance(n, ast.Compare) and 'min_length' in norm(n)
+            and isinstance(n.left, ast.Call) and dotted(n.left.func) == 'len' and n.left.args]
+    if len(lens) == 1:
+        pv = flow.provenance(fi.node, lens[0].left.args[0])
+        ctx.check('cleanup_desc' in flow.prov_calls(pv), 'ORDER',
+                  'sec_within measures the cleaned-up block against the minimum length',
+                  detail_bad="the length gate sees the raw block (cleanup_desc runs after it): connector words such "
+                             "as ' of ' / ', in ' between the section and an embedded Twp/Rge are spliced into the description",
+                  key="ORDER|rebuild_sec_within|clean-before-len", where=common.loc(fi, lens[0]))
+    else:
+        ctx.undecided('ORDER', 'sec_within length gate', 'length test not recognised')
     pre = [n for n in walk_local(fi.node) if isinstance(n, ast.Assign) and norm(n.targets[0]) == 'desc'
            and isinstance(n.value, ast.JoinedStr)]
     forms = {}
@@ -152,45 +169,54 @@ def _sec_within(ctx):
         forms[tuple(parts)] = gs
     ok = ('unused', 'desc') in forms and ('desc', 'unused') in forms \
         and ('i == 0', True) in forms[('unused', 'desc')] and ('i == 0', False) in forms[('desc', 'unused')]
-    ctx.check(ok, 'TBL', 'text tagged 0 is put before the description, anything else after it',
-              detail_bad=f"prefix/suffix forms {forms}", key="TBL|rebuild_sec_within|sides")
-    ctx.check("repaired_tract['sec_within'] = True" in t and "repaired_tract['desc'] = desc" in t, 'TBL',
-              'a repaired component is marked sec_within', detail_bad="marking changed", key="TBL|rebuild_sec_within|mark")
+    swapped = ('unused', 'desc') in forms and ('desc', 'unused') in forms \
+        and ('i == 0', False) in forms[('unused', 'desc')] and ('i == 0', True) in forms[('desc', 'unused')]
+    # the suffix must extend the running description (not restart from the original)
+    restart = any('orig_desc' in p for p in forms if len(p) == 2 and p != ('unused', 'desc') and p != ('desc', 'unused'))
+    ctx.tri(ok, swapped or restart, 'TBL', 'text tagged 0 is put before the description, anything else after it',
+            detail_bad=f"prefix/suffix forms {sorted(forms)}: leading and trailing text are "
+                       f"{'swapped' if swapped else 'not accumulated (an earlier re-attached block is lost)'}",
+            key="TBL|rebuild_sec_within|sides")
+    ctx.shape("repaired_tract['sec_within'] = True" in t and "repaired_tract['desc'] = desc" in t, 'TBL',
+              'a repaired component is marked sec_within')
     # producers
     pm = ctx.repo.func('ChunkParser._parse_meaningful')
     tp = ' '.join(norm(s) for s in walk_local(pm.node) if isinstance(s, ast.stmt))
-    ctx.check('self.unused_components.append((len(self.tract_components), block))' in tp, 'TBL',
-              'unused blocks are tagged with the number of tracts staged so far (0 = before the first)',
-              detail_bad="tag of unused blocks changed", key="TBL|_parse_meaningful|tag")
+    ctx.shape('self.unused_components.append((len(self.tract_components), block))' in tp, 'TBL',
+              'unused blocks are tagged with the number of tracts staged so far (0 = before the first)')
     for spec, tag, sl in (('PLSSChunker._segment_twprge_first', '0', 'text[:start]'),
                           ('PLSSChunker._segment_twprge_last', '1', 'text[end:]')):
         f2 = ctx.repo.func(spec)
         t2 = ' '.join(norm(s) for s in walk_local(f2.node) if isinstance(s, ast.stmt))
-        ctx.check(f"self.unused_blocks.append(({tag}, {sl}))" in t2, 'TBL',
-                  f"{spec.split('.')[-1]} tags its unused text {tag}",
-                  detail_bad="chunker tag/slice changed", key=f"TBL|{spec}|tag")
+        tags = [norm(c.args[0].elts[0]) for c in walk_local(f2.node) if isinstance(c, ast.Call)
+                and norm(c.func) == 'self.unused_blocks.append' and c.args and isinstance(c.args[0], ast.Tuple)
+                and isinstance(c.args[0].elts[0], ast.Constant)]
+        ctx.tri(tags == [tag], bool(tags) and any(t_ != tag for t_ in tags), 'TBL',
+                f"{spec.split('.')[-1]} tags its unused text {tag}",
+                detail_bad=f"leftover text is tagged {tags}: sec_within attaches it on the wrong side",
+                key=f"TBL|{spec}|tag")
     # consumer sets marker -> warning
     cw = ctx.repo.func('PLSSParser.check_sec_within_tracts')
     t3 = ' '.join(norm(s) for s in walk_local(cw.node) if isinstance(s, ast.stmt))
-    ctx.check('for i in self.sec_within_indexes' in t3 and 'self.w_flags.append(flag)' in t3
+    ctx.shape('for i in self.sec_within_indexes' in t3 and 'self.w_flags.append(flag)' in t3
               and 'self.w_flag_lines.append((flag, context))' in t3 and 'sec_within<' in t3, 'PAIR',
-              'every repaired tract raises a paired sec_within warning', detail_bad="sec_within warning changed",
-              key="PAIR|check_sec_within_tracts")
+              'every repaired tract raises a paired sec_within warning')
     ct = ctx.repo.func('PLSSParser.construct_tracts')
     t4 = ' '.join(norm(s) for s in walk_local(ct.node) if isinstance(s, ast.stmt))
-    ctx.check("if tract_data['sec_within']" in t4 and 'self.sec_within_indexes.append(self.next_tract_uid)' in t4, 'TBL',
-              'construct_tracts records the index of every repaired tract', detail_bad="index recording changed",
-              key="TBL|construct_tracts|sec_within")
+    ctx.shape("if tract_data['sec_within']" in t4 and 'self.sec_within_indexes.append(self.next_tract_uid)' in t4, 'TBL',
+              'construct_tracts records the index of every repaired tract')
     # ordering in PLSSParser.parse: rebuild (under sec_within) before construct_tracts
     pp = ctx.repo.func('PLSSParser.parse')
     cfg, _ = flow.analyse(pp.node)
     rb = [enclosing_stmt(c) for c in walk_local(pp.node) if isinstance(c, ast.Call) and dotted(c.func) == 'rebuild_sec_within']
     cs = [enclosing_stmt(c) for c in walk_local(pp.node) if isinstance(c, ast.Call) and dotted(c.func) == 'self.construct_tracts']
     if len(rb) != 1 or len(cs) != 1:
-        raise AnalysisError("PLSSParser.parse: rebuild_sec_within / construct_tracts calls not found")
+        ctx.undecided('ORDER', 'unused text is re-attached before the tracts are constructed', 'calls not recognised')
+        return
     gs = [(norm(tt), pol) for tt, pol in guards(rb[0])]
-    ctx.check(gs == [('self.sec_within', True)], 'ORDER', 'PLSSParser.parse re-attaches unused text only under sec_within',
-              detail_bad=f"guards {gs}", key="ORDER|PLSSParser.parse|sec_within-guard")
+    ctx.tri(gs == [('self.sec_within', True)], gs == [], 'ORDER', 'PLSSParser.parse re-attaches unused text only under sec_within',
+            detail_bad="rebuild_sec_within runs unconditionally: unused text is glued onto tracts although sec_within is off",
+            key="ORDER|PLSSParser.parse|sec_within-guard")
     a, b = cfg.node_of(rb[0]._parent if isinstance(rb[0]._parent, ast.If) else rb[0]), cfg.node_of(cs[0])
     ctx.check(cfg.must_pass(cfg.entry, [a], to=b) and a.id != b.id and b not in cfg.reachable_from(cfg.entry, blocked=[a]), 'ORDER',
               'unused text is re-attached before the tracts are constructed',
@@ -198,15 +224,13 @@ def _sec_within(ctx):
                          "re-attached text is lost (and the unused list is emptied without a flag)",
               key="ORDER|PLSSParser.parse|rebuild-before-construct", where=common.loc(pp, rb[0]))
     args = [norm(x) for x in rb[0].value.args] if isinstance(rb[0], ast.Expr) else []
-    ctx.check(args[:2] == ['self.tract_components', 'self.unused_components'], 'ORDER',
-              'the parser-level repair works on the parser lists', detail_bad=f"args {args}",
-              key="ORDER|PLSSParser.parse|rebuild-args")
+    ctx.shape(args[:2] == ['self.tract_components', 'self.unused_components'], 'ORDER',
+              'the parser-level repair works on the parser lists')
     pc = ctx.repo.func('ChunkParser.parse_chunk')
     rbc = [c for c in walk_local(pc.node) if isinstance(c, ast.Call) and dotted(c.func) == 'rebuild_sec_within']
     ok = len(rbc) == 1 and [(norm(tt), pol) for tt, pol in guards(rbc[0])] == [('self.parent.sec_within', True)] \
         and [norm(x) for x in rbc[0].args[:2]] == ['self.tract_components', 'self.unused_components']
-    ctx.check(ok, 'ORDER', 'the chunk-level repair runs under sec_within on the chunk lists',
-              detail_bad="chunk-level rebuild_sec_within changed", key="ORDER|parse_chunk|rebuild")
+    ctx.shape(ok, 'ORDER', 'the chunk-level repair runs under sec_within on the chunk lists')
 
 
 def _segment(ctx):
@@ -216,17 +240,14 @@ def _segment(ctx):
     ok = len(segs) == 1 and [norm(s) for s in segs[0].body] == [
         'chunker = PLSSChunker(self.text, layout=self.layout)', 'self.blocks = chunker.blocks',
         'self.unused_components.extend(chunker.unused_blocks)']
-    ctx.check(ok, 'TBL', 'segment: blocks from the chunker, its unused text kept for flagging / sec_within',
-              detail_bad="segment block changed", key="TBL|PLSSParser.parse|segment")
+    ctx.shape(ok, 'TBL', 'segment: blocks from the chunker, its unused text kept for flagging / sec_within')
     pi = ctx.repo.func('PLSSParser.__init__')
     ti = [norm(s) for s in walk_local(pi.node) if isinstance(s, ast.stmt)]
-    ctx.check('self.blocks = [self.text]' in ti, 'TBL', 'without segment the whole text is one block',
-              detail_bad="default blocks changed", key="TBL|PLSSParser.__init__|blocks")
+    ctx.shape('self.blocks = [self.text]' in ti, 'TBL', 'without segment the whole text is one block')
     # chunk slices tile the text (first: [start, next_start); last: [previous_end, end))
     for spec, blk in (('PLSSChunker._segment_twprge_first', 'text[start:next_start]'),
                       ('PLSSChunker._segment_twprge_last', 'text[previous_end:end]')):
         f2 = ctx.repo.func(spec)
         t2 = ' '.join(norm(s) for s in walk_local(f2.node) if isinstance(s, ast.stmt))
-        ctx.check(f"new_block = {blk}" in t2 and 'self.blocks.append(new_block)' in t2, 'TBL',
-                  f"{spec.split('.')[-1]}: chunk i is {blk}", detail_bad="chunk slice changed",
-                  key=f"TBL|{spec}|slice")
+        ctx.shape(f"new_block = {blk}" in t2 and 'self.blocks.append(new_block)' in t2, 'TBL',
+                  f"{spec.split('.')[-1]}: chunk i is {blk}")
